@@ -346,6 +346,13 @@ def judge(history, i, st, prev, docs, up, pre):
                 lab = 'nullid'
             fails.append((i, lab, '%s(upsert=True) filter %r update %r inserted %r, '
                           'seed + update give %r' % (k, filt, spec, nd, exp)))
+    # known: the matcher reads the empty key as "the whole document", so a filter with an empty
+    # key never finds the document built from it
+    pr0 = (st.extra or {}).get('probe')
+    if pr0 and 'error' not in pr0 and isinstance(filt, dict) and '' in filt and \
+            (len(docs) - 1) not in pr0['found']:
+        fails.append((i, 'upsert-empty-key', '%s(upsert=True): the inserted document %r is not '
+                      'found by the filter %r (empty field name)' % (k, nd, filt)))
     # matched again by the same filter when it is made of equalities the update does not touch
     pr = (st.extra or {}).get('probe')
     if pr and 'error' not in pr and isinstance(filt, dict):
